@@ -58,24 +58,26 @@ def recognise_rp66v1(order: int, vr_each: bool, d1: int, d2: int, d3: int, m3: i
         return ok and t == 'RP66V1'
 
 
-def recognise_lis(f1: int, indirect: bool, tif: bool, table: bool, split: bool, reel: bool) -> bool:
+def recognise_lis(f1: int, indirect: bool, tif: bool, table: bool, split: bool, reel: bool, pad: int = 0) -> bool:
     """
-    pre: 1 <= f1 <= 3
+    pre: 1 <= f1 <= 3 and pad in (0, 2, 4) and (pad == 0 or not tif)
     pre: PART < 0 or (8 if indirect else 0) + (4 if tif else 0) + (2 if table else 0) + (1 if split else 0) == PART
     post: _
     """
     f1 = mark.pick(f1, 1, 3)
     indirect, tif, table, split, reel = mark.pickb(indirect), mark.pickb(tif), mark.pickb(table), mark.pickb(split), mark.pickb(reel)
+    pad = mark.pick_from(pad, (0, 2, 4))
     with mark.untraced():
         import C06_logpass as H6
         from spec import lis_lr_ref as L
-        data, pos, kinds, model = H6._build([2, f1, 1], indirect, tif, table, 24 if split else None)
+        # split: physical records of at most 23 payload bytes (odd lengths, so that padded files need 1..3 pad bytes)
+        data, pos, kinds, model = H6._build([2, f1, 1], indirect, tif, table, 23 if split else None, 0, pad)
         if reel:
             # the same logical records preceded by reel and tape headers
             chs = H6.CHS[1:] if indirect else H6.CHS
             lrs = [bytes([132, 0]) + b' ' * 126, bytes([130, 0]) + b' ' * 126, L.file_head_tail(128), L.dfsr(chs, indirect),
                    L.data_record([L.i32(7) + L.i16(1)] if indirect else [L.i32(1000) + L.i32(7) + L.i16(1)], L.i32(1000) if indirect else None), L.file_head_tail(129)]
-            data, pos = L.physical(lrs, tif, 24 if split else None)
+            data, pos = L.physical(lrs, tif, 23 if split else None, pad)
         mark.hit()
         t, ok = _typed(data)
         return ok and t == ('LISt' if tif else 'LIS')
